@@ -43,6 +43,15 @@ CHECKS = {
          "sparse column- and row-major storage; oracle in long double: normal-equation backward error, dense = sparse when cond <= 1e8, "
          "analytic d|D dx|/dlambda cross-checked by complex step, lambda = 1/Delta, descent, colwise_norm = definition.",
     design="4/C10", technique="explicit-state enumeration of a finite input product space against a long-double reference"),
+ "C15": dict(
+    text="Explicit-state breadth-first search over ALL programs up to depth 4 (quick; 5 thorough for SO2/SO3/SE3) over a ~30-operation "
+         "alphabet (compose, inverse, *=, +=, rplus, exp, same-scalar cast, lift/project) on a register file of two elements and two tangents "
+         "of the real objects, 3 initial files incl. half-turn / q_w~0 / near-identity elements and switch / near-pi tangents, states merged "
+         "by the exact bit pattern of the registers; plus every homogeneous chain and every period-2 program unrolled to 1e4 (1e5) steps with "
+         "the invariants monitored at every step; plus every fixed-step Runge-Kutta stepper of Boost.odeint x step counts x horizons x "
+         "velocities. Invariants: finite, |constraint| <= (n+1)e-14, q_w >= 0, matrix within (n+1)e-13 of the same program run on long-double "
+         "reference matrices.",
+    design="4/C15", technique="explicit-state BFS over operation histories with bit-exact state merging, against a reference model"),
  "C17": dict(
     text="Bounded exhaustive enumeration of full products over element / tangent / planar-angle alphabets (incl. signed-zero coefficient "
          "pairs): SE_K_3<1> = SE3 and SE_K_3<2> = zero-time Galilei operation by operation (all ordered pairs for composition), lift/project "
